@@ -1049,6 +1049,8 @@ func (ev *EvalCtx) evalLoc(e Expr) []locItem {
 			return nil
 		case "anything":
 			return []locItem{{kind: "any"}}
+		case "anyold":
+			return []locItem{{kind: "any-old"}}
 		}
 	case EStar:
 		x := ev.eval(e.X)
@@ -1101,7 +1103,7 @@ func (ev *EvalCtx) evalLoc(e Expr) []locItem {
 // covers returns the condition under which allowed item a covers written item b.
 func covers(a, b locItem) *Term {
 	switch a.kind {
-	case "any":
+	case "any", "any-old":
 		return TTrue
 	case "row":
 		if b.kind == "row" || b.kind == "loc" {
@@ -1179,7 +1181,30 @@ func (fc *FnCtx) havocItems(st *State, items []locItem) {
 			st.heaps[cn] = fc.sc.Fresh("hvMC", c.Sort)
 		case "ghost":
 			st.ghosts[it.ghost] = fc.sc.Fresh("g_"+it.ghost, SInt)
+		case "any-old":
+			fc.epochs++
+			st.hEpoch = fc.epochs
+			// everything that existed when the verified function was entered may change; objects the
+			// function allocated itself (its local cells, closures, fresh structures) are out of the callee's reach
+			for _, s := range []Sort{SInt, SBool, SStr, SPtr, SSlice, SIface, SFlt} {
+				old := fc.leafHeap(st, s)
+				nh := fc.sc.Fresh("hvold", HeapSort(s))
+				fc.wfHeapFact(nh, fc.hvBound)
+				fc.sc.Assert(mk(SBool, fmt.Sprintf("(forall ((o!q Int)) (! (=> (>= o!q %s) (= (select %s o!q) (select %s o!q))) :pattern ((select %s o!q))))", fc.next0.S, nh.S, old.S, nh.S)))
+				st.heaps[leafHeapName(s)] = nh
+			}
+			for name, srt := range fc.heapSorts {
+				if strings.HasPrefix(name, "M") {
+					old := fc.heap(st, name, srt)
+					nh := fc.sc.Fresh("hvold", srt)
+					fc.wfHeapFact(nh, fc.hvBound)
+					fc.sc.Assert(mk(SBool, fmt.Sprintf("(forall ((o!q Int)) (! (=> (>= o!q %s) (= (select %s o!q) (select %s o!q))) :pattern ((select %s o!q))))", fc.next0.S, nh.S, old.S, nh.S)))
+					st.heaps[name] = nh
+				}
+			}
 		case "any":
+			fc.epochs++
+			st.hEpoch = fc.epochs
 			for _, s := range []Sort{SInt, SBool, SStr, SPtr, SSlice, SIface, SFlt} {
 				st.heaps[leafHeapName(s)] = fc.sc.Fresh("hvall", HeapSort(s))
 				fc.heapSorts[leafHeapName(s)] = HeapSort(s)
